@@ -8,7 +8,7 @@ sys.path.insert(0, os.path.dirname(os.path.dirname(os.path.abspath(__file__))))
 import vlib
 from partdefs import partdefs
 
-THEOREM_FILES = ['C12']
+THEOREM_FILES = ['C12', 'C12b']
 ASSUMPTIONS = ['the figures of includes/*def.inc are read by a static parse (tools/partdefs.py)',
                'for devices without a shipped part file the expected capacities are the code\'s own table row (nothing independent exists)']
 
